@@ -186,14 +186,9 @@ define("sim_wf(p)",
 
 # C08: every per-step log of the model has length n
 define("aligned(p, n)",
-       "len(p.cost_list) == n and len(p.organization.cost_list) == n"
-       " and forall(p.organization.team_list, lambda tm: len(tm.cost_list) == n and forall(tm.worker_list, lambda w:"
-       "     len(w.state_record_list) == n and len(w.cost_list) == n and len(w.assigned_task_id_record) == n))"
-       " and forall(p.organization.workplace_list, lambda wp: len(wp.cost_list) == n and len(wp.placed_component_id_record) == n"
-       "     and forall(wp.facility_list, lambda f: len(f.state_record_list) == n and len(f.cost_list) == n and len(f.assigned_task_id_record) == n))"
-       " and forall(p.workflow.task_list, lambda t: len(t.state_record_list) == n and len(t.remaining_work_amount_record_list) == n"
-       "     and len(t.allocated_worker_id_record) == n and len(t.allocated_facility_id_record) == n)"
-       " and forall(p.product.component_list, lambda c: len(c.state_record_list) == n and len(c.placed_workplace_id_record) == n)")
+       "len(p.cost_list) == n and org_aligned(p.organization, n)"
+       " and forall(p.workflow.task_list, lambda t: task_aligned(t, n))"
+       " and forall(p.product.component_list, lambda c: component_aligned(c, n))")
 
 define("lifecycle_rank(s)", "ite(s == BaseTaskState.NONE, 0, ite(s == BaseTaskState.READY, 1, ite(s == BaseTaskState.WORKING, 2, ite(s == BaseTaskState.FINISHED, 3, 2))))")
 T0 = "(0 if initialize_log_info else old(self.time))"
